@@ -1,4 +1,48 @@
-"""Constants of the request path (C04) re-extracted from /repo on every run."""
+"""Constants of the request path (C04) re-extracted from /repo on every run.
+
+The structural "repair present" flags are decided BEHAVIOURALLY (ROBUSTNESS.md rule 3): props/c04.py runs one probe case per
+flag on the freshly built harness and writes build/c04_probe_<tree hash>.json before the Coq build; the entries below read that
+file and fall back to the source-text regex only when no probe result exists for this tree (e.g. another property's run
+regenerating the file)."""
+import json
+import os
+import re
+
+_HASH = {}
+
+
+def _probe_file(repo):
+    import ltv
+    if repo not in _HASH:
+        _HASH[repo] = ltv.repo_tree_hash()
+    return os.path.join(ltv.BUILD, "c04_probe_%s.json" % _HASH[repo])
+
+
+def _flag(name, rel, rx):
+    """conv for an always-matching entry: probe result if there is one for this tree, else the source-text regex"""
+    def conv(m):
+        try:
+            import ltv
+            with open(_probe_file(ltv.REPO)) as f:
+                d = json.load(f)
+            if name in d:
+                return 1 if d[name] else 0
+        except Exception:
+            pass
+        try:
+            import ltv
+            mm = re.search(rx, open(os.path.join(ltv.REPO, rel), errors="replace").read(), flags=re.S)
+            return 1 if (mm and mm.group(1)) else 0
+        except Exception:
+            return 0
+    return conv
+
+
+def _flag_entry(coq_name, probe_name, rel, rx):
+    # the entry's own regex always matches (config.h exists in every tree); the decision is made in conv
+    return (coq_name, "config.h", r"\A", "N", _flag(probe_name, rel, rx))
+
+
 ENTRIES = [
     ("c04_block_size", "src/download/delegator.h", r"static constexpr unsigned int block_size = (1 << \d+);", "N"),
     ("c04_overlapped", "src/download/delegator.cc", r"uint16_t overlapped = (\d+);", "N"),
@@ -8,26 +52,21 @@ ENTRIES = [
     ("c04_timeout_remove_choked_s", "src/protocol/request_list.h", r"timeout_remove_choked\{(\d+)s\}", "N"),
     ("c04_timeout_process_unordered_s", "src/protocol/request_list.h", r"timeout_process_unordered\{(\d+)s\}", "N"),
     # RequestList::choked early return: 1 iff it also requires the stalled bucket to be empty (0 in the code as first modelled)
-    ("c04_choked_checks_stalled", "src/protocol/request_list.cc",
-     r"if \(m_queues\.queue_empty\(bucket_queued\) && m_queues\.queue_empty\(bucket_unordered\)( && m_queues\.queue_empty\(bucket_stalled\))?\)\s*return;",
-     "N", lambda m: 1 if m.group(1) else 0),
+    _flag_entry("c04_choked_checks_stalled", "choked_checks_stalled", "src/protocol/request_list.cc",
+                r"if \(m_queues\.queue_empty\(bucket_queued\) && m_queues\.queue_empty\(bucket_unordered\)( && m_queues\.queue_empty\(bucket_stalled\))?\)\s*return;"),
     # (A) PeerConnection<>::update_interested queues the connection in the download choke queue when the peer has us unchoked
-    ("c04_update_interested_queues", "src/protocol/peer_connection_leech.cc",
-     r"PeerConnection<type>::update_interested\(\) \{.*?m_down_interested = true;\s*(?://[^\n]*\n\s*)*(if \(m_down_unchoked\)\s*m_download->choke_group\(\)->down_queue\(\)->set_queued\(this, &m_down_choke\);)?\s*(?://[^\n]*\n\s*)*\}",
-     "N", lambda m: 1 if m.group(1) else 0),
+    _flag_entry("c04_update_interested_queues", "update_interested_queues", "src/protocol/peer_connection_leech.cc",
+                r"PeerConnection<type>::update_interested\(\) \{.*?m_down_interested = true;\s*(?://[^\n]*\n\s*)*(if \(m_down_unchoked\)\s*m_download->choke_group\(\)->down_queue\(\)->set_queued\(this, &m_down_choke\);)?\s*(?://[^\n]*\n\s*)*\}"),
     # (C) read_have_chunk (not interested branch) also raises interest for a piece listed in the transfer list
-    ("c04_have_listed_raises", "src/protocol/peer_connection_leech.cc",
-     r"if \(m_download->chunk_selector\(\)->received_have_chunk\(&m_peer_chunks, index\)( \|\|\s*transfers->find\(index\) != transfers->end\(\))?\) \{\s*m_send_interested = !m_down_interested;",
-     "N", lambda m: 1 if m.group(1) else 0),
+    _flag_entry("c04_have_listed_raises", "have_listed_raises", "src/protocol/peer_connection_leech.cc",
+                r"if \(m_download->chunk_selector\(\)->received_have_chunk\(&m_peer_chunks, index\)( \|\|\s*transfers->find\(index\) != transfers->end\(\))?\) \{\s*m_send_interested = !m_down_interested;"),
     # (E) try_request_pieces' loop guard counts only valid queued transfers
-    ("c04_pipe_counts_valid", "src/protocol/peer_connection_base.cc",
-     r"while \(request_list\(\)->queued_(valid_)?size\(\) < pipeSize && m_up->can_write_request\(\)\)",
-     "N", lambda m: 1 if m.group(1) else 0),
+    _flag_entry("c04_pipe_counts_valid", "pipe_counts_valid", "src/protocol/peer_connection_base.cc",
+                r"while \(request_list\(\)->queued_(valid_)?size\(\) < pipeSize && m_up->can_write_request\(\)\)"),
     # try_request_pieces: 'Don't start requesting if we can't do it in large enough chunks': pipe_size() >= (pipeSize + A) / B
     ("c04_pipe_gate_add", "src/protocol/peer_connection_base.cc", r"if \(request_list\(\)->pipe_size\(\) >= \(pipeSize \+ (\d+)\) / \d+\)", "N"),
     ("c04_pipe_gate_div", "src/protocol/peer_connection_base.cc", r"if \(request_list\(\)->pipe_size\(\) >= \(pipeSize \+ \d+\) / (\d+)\)", "N"),
     # CHOKE handler restores the interest of a connection that our own choke queue had choked (proposed repair; 0 = absent)
-    ("c04_choke_restores_interest", "src/protocol/peer_connection_leech.cc",
-     r"(if \(!m_down_interested && m_down_choke\.queued\(\)\) \{\s*m_send_interested = true;\s*m_down_interested = true;\s*\})?\s*request_list\(\)->choked\(\);",
-     "N", lambda m: 1 if m.group(1) else 0),
+    _flag_entry("c04_choke_restores_interest", "choke_restores_interest", "src/protocol/peer_connection_leech.cc",
+                r"(if \(!m_down_interested && m_down_choke\.queued\(\)\) \{\s*m_send_interested = true;\s*m_down_interested = true;\s*\})?\s*request_list\(\)->choked\(\);"),
 ]
